@@ -1413,6 +1413,7 @@ class SimulationResults(JsonSerializable):
         d = {
             'params': self._params.to_dict(),
             'runned_reps': self.runned_reps,
+            'current_rep': self.current_rep,
             'original_filename': self.original_filename,
             'results': results
         }
@@ -1466,6 +1467,8 @@ class SimulationResults(JsonSerializable):
         simresults = SimulationResults()
         simresults._params = SimulationParameters.from_dict(d['params'])
         simresults.runned_reps = d['runned_reps']
+        # (absent in files written before this attribute was stored)
+        simresults.current_rep = d.get('current_rep', -1)
         simresults.original_filename = d['original_filename']
         simresults._results = results
         if 'rep_max' in d:
